@@ -1,5 +1,6 @@
 import DeltaModel.Proto
 import DeltaModel.Options
+import DeltaModel.GitParams
 /-!
 Model driver for C13 (`drv_opts`).
 
@@ -26,6 +27,12 @@ Response: `ok <x features joined by space> <v1> <v2> …` with one `v` per probe
 `c:<xhex>` command line, `g:<xhex>` git config text, `b:<xhex>` builtin literal,
 `f:0|1` builtin boolean, `y:<xhex>` builtin dynamic default, `d` clap default,
 `r:<xhex>` clap default rewritten before the macro, `w:<xhex>` value written after the macro.
+
+`opts.resolveraw …` — the same request with `params` = `-` (the variable is unset) or x<hex> of the text of
+`GIT_CONFIG_PARAMETERS` itself: the model reads it (`GitParams.paramsOfEnv`); `PANIC` when the reader panics.
+
+`opts.params <x text of GIT_CONFIG_PARAMETERS>` → `ok <x lines "key TAB value">`: the pairs `GitParams.parsePairs` finds,
+in order, full keys; `PANIC` when the reader panics.
 
 `opts.info` → `ok <x flagIteration> <x builtin names joined by space>`.
 `opts.tablekeys` → `ok <x feature:opt,opt,…;feature:…>` (keys of the generated builtin tables).
@@ -81,6 +88,31 @@ def stepOpts (line : String) : String :=
   | ["opts.tablekeys"] =>
     "ok " ++ hexOfString (";".intercalate (allBuiltins.map fun (n, t) =>
       n ++ ":" ++ ",".intercalate (t.map (·.1))))
+  | ["opts.params", raw] =>
+    match stringOfField raw with
+    | some raw =>
+      match GitParams.parsePairs raw with
+      | some ps => "ok " ++ hexOfString ("\n".intercalate (ps.map fun p => p.1 ++ "\t" ++ p.2))
+      | none => "PANIC params"
+    | none => "ERR"
+  | ["opts.resolveraw", pi, cli, cf, ef, en, ng, dc, cfg, params, probes] =>
+    match stringOfField pi, stringOfField cli, optField cf, optField ef, natOfField en,
+          natOfField ng, optField dc, optField cfg, optField params, stringOfField probes with
+    | some pi, some cli, some cf, some ef, some en, some ng, some dc, some cfg, some params,
+      some probes =>
+      match GitParams.paramsOfEnv params with
+      | none => "PANIC params"
+      | some ps =>
+        let inp : Inputs :=
+          { cli := parsePairs cli, cliFeatures := cf, envFeatures := ef, envNavigate := en ≠ 0,
+            noGitconfig := ng ≠ 0, defaultFile := dc.map parseGitFile,
+            configFile := cfg.map parseGitFile, params := ps }
+        let π := (pi.splitOn " ").filter (· ≠ "")
+        let feats := gatherFeatures π inp
+        let vals := ((probes.splitOn " ").filter (· ≠ "")).map fun o =>
+          showVal (finalWith feats inp o)
+        "ok " ++ hexOfString (" ".intercalate feats) ++ " " ++ " ".intercalate vals
+    | _, _, _, _, _, _, _, _, _, _ => "ERR"
   | ["opts.resolve", pi, cli, cf, ef, en, ng, dc, cfg, params, probes] =>
     match stringOfField pi, stringOfField cli, optField cf, optField ef, natOfField en,
           natOfField ng, optField dc, optField cfg, stringOfField params, stringOfField probes with
